@@ -34,6 +34,24 @@ def seqtest(extra_env=None):
 
 
 SEQ = seqtest()
+
+
+def stacktest():
+    def cmd(t):
+        return ["go1.26.8", "test", "-count=1", "-vet=off", "-timeout", "170m", "-overlay", "overlay/exports.json", "-run", "^TestStack$", "./stack"]
+    return dict(name="stack", cmd=cmd, timeout=dict(quick=900, thorough=7200))
+
+
+def conctest(pkg="concsrv", test="TestConc", name="conc"):
+    def cmd(t):
+        return ["./conc/run.sh", "/dev/shm/verif-ov-%s-%d" % (name, os.getpid()), "-count=1", "-timeout", "170m", "-run", "^%s$" % test, "./" + pkg]
+    return dict(name=name, cmd=cmd, timeout=dict(quick=1500, thorough=10000), cleanup="/dev/shm/verif-ov-%s-%d" % (name, os.getpid()))
+
+
+STACK = stacktest()
+CONC = conctest()
+STACK_TRUST = ["stack stream: the real cmd/server and cmd/lock binaries built from the working tree, real gRPC/REST/Go clients over loopback; grpc-go, grpc-gateway, crypto/tls, net/rpc are exercised, not modelled"]
+CONC_TRUST = ["conc stream: the working tree recompiled with yield points and scheduler-visible mutexes injected by tools/instr (overlay; /repo untouched); schedules explored exhaustively up to a preemption bound + PCT-style random; critical section = atomic step assumes data-race freedom outside the two benign races named in DESIGN §9"]
 M2_TRUST = ["M2 (lean/Ldlm/Model/Core.lean) is a hand-written sequential model of server.go + lock/*.go + timermap.go + session.go; x/sync semaphore (unit weights), time.AfterFunc/Timer, context cancellation and uuid freshness (KeysInjective) are modelled, not verified",
             "tie: random state-aware histories in virtual time (testing/synctest), canonical per-operation snapshots (response, listing, lock table via overlay accessors, decoded state file, timer keys, blocked calls) compared channel by channel; ties between order-sensitive timer events are detected by the model and the history is cut there"]
 CODEC = dict(name="codec", cmd=gotest("codec", "TestCodec"), timeout=dict(quick=900, thorough=3600))
@@ -73,6 +91,61 @@ PROPS = {
         technique="Lean 4 proof (pointwise inductive invariant booked⇔held, bookkeeping uniqueness, file/session relation) + three-view sequential differential correspondence",
         trusted=M2_TRUST,
     ),
+    "C11": dict(
+        modules=[P + "C11"],
+        theorems=[P + "C11." + t for t in ("order_pinned", "shutdown_keeps_file", "shutdown_waiters_error", "shutdown_then_start_restores", "old_order_loses_holds")]
+                 + ["Ldlm.Pins.pin_DestroySession"],
+        status={P + "C11.old_order_loses_holds": "refutation witness for the original closer order (D11, repaired)"},
+        streams=[STACK],
+        level_text="Over M2 with the closer sequence of cmd/server/main.go AS EXTRACTED from the source on every run: the state file after shutdown equals the file before, every blocked Lock completes with an error and none with a hold, nothing stays blocked, and the next start loads the same table - proved for every state. The original order (network closer before the shutdown flag) is refuted by a kernel-checked witness. Exit status 0, termination within 10 s, no panic and the restored holds are OBSERVED on the real binary (SIGINT/SIGTERM at several workload points, gRPC + REST clients, blocked waiters), not proved.",
+        level_note="PARTIAL by nature: process exit, signal delivery and real-time promptness are outside any model here; interleavings of the shutdown with in-flight requests are sampled by the stack stream only. D11 (holds cleared on graceful shutdown) was found by this check and repaired (fix: 5984d9a). Trusted: Lean kernel, facts extractor (closer order, DestroySession text), hand-written M2.",
+        technique="Lean 4 proof over an interpreter of the extracted closer sequence + end-to-end runs of the real binaries under signals",
+        trusted=M2_TRUST + STACK_TRUST,
+    ),
+    "C12": dict(
+        modules=[P + "C12"],
+        theorems=[P + "C12." + t for t in ("trylock_no_session", "trylock_negative_lock_timeout", "lock_negative_lock_timeout", "lock_negative_wait_timeout",
+                                          "trylock_empty_name", "lock_empty_name", "trylock_invalid_size", "lock_invalid_size", "trylock_size_mismatch",
+                                          "lock_size_mismatch", "default_size_is_one", "default_size_is_one_lock", "renew_nonpositive",
+                                          "zero_or_absent_lock_timeout_means_none", "zero_or_absent_wait_timeout_means_none", "invalid_size_inert",
+                                          "trylock_size_mismatch_sharded", "guards_pinned", "default_size_pinned", "lease_units_pinned", "arm_guards_pinned")]
+                 + ["Ldlm.Core.shardedOps_lawful"],
+        streams=[SEQ],
+        level_text="One decision lemma per rule (size <= 0, mismatch, default 1, empty name, negative lock/wait timeout, non-positive renew timeout, 0/absent = none, and their order), each proved for EVERY state and for every lawful lock-table representation, hence for manager.go's sharded table with any hash and any shard count; comparisons, constants, units and their source order are pinned by lemmas over facts regenerated from the source on every run. 'All other lock behaviour identical for every number of shards' is covered by genericity of every M2 theorem in the representation, and checked on the code by replaying every generated history under shard counts 0, 1, 2, 16, 1000 (implementation against implementation).",
+        level_note="The response-stream equality between two shard counts is not yet a standalone simulation theorem (step_sim, planned); it is implied per-theorem by genericity and checked on the implementation by replay. Trusted: Lean kernel, facts extractor, hand-written M2, the differential tie.",
+        technique="Lean 4 decision lemmas generic in the table representation + regenerated source facts + 5-shard-count replay",
+        trusted=M2_TRUST,
+    ),
+    "C14": dict(
+        modules=[P + "C14"],
+        theorems=[P + "C14." + t for t in ("all_conditions", "codes_roundtrip", "codes_roundtrip'", "codes_distinct", "nil_is_nil", "renew_rewrite_pinned", "error_not_true", "ok_has_no_error")],
+        streams=[STACK, SEQ],
+        level_text="Over tables REGENERATED from the source on every run (both switch statements, the client's aliases, the proto enum): each of the six conditions maps to its own code, never Unknown, the code exists on the wire/JSON, and the Go client maps it back to an exported value aliasing the same server error - by kernel evaluation over the complete finite list. 'Error implies not locked/unlocked' and 'success implies no error' are proved for every M2 state and request. Which Go value the server returns per condition is tied by the stack stream (every condition x transport x RPC on the real binaries) and seqdiff.",
+        level_note="D4 (failed Renew arrived as Unknown) was found by this check and repaired (fix: 11de5aa). Trusted: Lean kernel, facts extractor, grpc/grpc-gateway/protojson (exercised by the stack stream), hand-written M2.",
+        technique="Lean 4 decide over regenerated tables + M2 case analysis + end-to-end code matrix on the real stack",
+        trusted=M2_TRUST + STACK_TRUST,
+    ),
+    "C16": dict(
+        modules=[P + "C16"],
+        theorems=[P + "C16." + t for t in ("rest_auth_sound", "rest_auth_complete", "rest_auth_off", "grpc_auth_iff", "auth_first_on_rest", "auth_installed_iff_password",
+                                          "grpc_methods", "rest_routes", "tls_verify_enforced", "tls_cert_never_plaintext", "tls_verify_without_cert_refuses", "tls_key_alone_is_plaintext")]
+                 + ["Ldlm.Pins.pin_ValidatePassword", "Ldlm.Pins.pin_AuthInterceptor", "Ldlm.Pins.pin_ServeHTTP", "Ldlm.Pins.pin_GetTLSConfig"],
+        streams=[STACK],
+        level_text="The two authentication decisions and the TLS decision are stated outright and proved for all inputs (REST: accepted iff the credential after the first colon of the decoded Basic token equals the password; gRPC: first authorization value equals it; TLS: all 64 rows - verification/CA requested => error or TLS requiring client certs, certificate => never plaintext). The models are pinned to the source text of the four functions and to regenerated structural facts (password check first on every REST path incl. /session, interceptor installed iff password, all four RPCs unary). Enforcement on the wire is exercised by the stack stream: all 2^5 configurations on the real binary, every credential shape on every RPC and route, plaintext and certificate-less probes.",
+        level_note="PARTIAL: handshake enforcement is crypto/tls + grpc credentials (trusted); strings.Split and base64 are parameters (Go stdlib trusted). A key without a certificate is read by the code as 'TLS not configured' and served in plaintext: stated as a theorem so it is visible, reported as a note by the stack stream, not counted as a violation (the property's trigger is 'TLS configured' = certificate). Trusted: Lean kernel, facts extractor.",
+        technique="Lean 4 decision theorems pinned to regenerated source text + full configuration/credential matrix on the real binaries",
+        trusted=STACK_TRUST,
+    ),
+    "C18": dict(
+        modules=[P + "C18"],
+        theorems=[P + "C18." + t for t in ("ipc_unlock_by_key_equiv", "ipc_unlock_by_name_picks_listed", "ipc_unlock_by_name_equiv", "ipc_unlock_absent", "ipc_list_exact", "unlock_ignores_session")]
+                 + ["Ldlm.Pins.pin_IpcUnlock"],
+        streams=[STACK, SEQ],
+        level_text="In M2 the admin unlock with a key is proved to be exactly the holder's own Unlock (same transition, same answer) for every state; with a name alone it is the Unlock of a listed hold of that name; with no such hold it answers LockDoesNotExist and changes nothing; the listing is exact by C08. IPC.Unlock is pinned to its source text. Tied to the code by the real ldlm-lock binary against the real server after random gRPC/REST histories (list output, unlock by name / name+key, follow-up TryLock, state file) and by seqdiff with in-process IPC calls.",
+        level_note="The code picks the LAST listed hold of a name in Go map order; the model admits any listed hold and the tie reports which one was picked. D5 (admin unlock always failed) was found by this check and repaired (fix: 52c429e). Trusted: Lean kernel, net/rpc (exercised), hand-written M2.",
+        technique="Lean 4 proof (definitional equivalence with Unlock over M2) + real admin binary against real server",
+        trusted=M2_TRUST + STACK_TRUST,
+    ),
     "C17": dict(
         modules=[P + "C17"],
         theorems=[P + "C17." + t for t in (
@@ -96,6 +169,8 @@ NOT_CLAIMED = {}
 ENGINES = [
     dict(name="lean", path="/verif/lean", serves_properties=sorted(PROPS), kind_free_text="Lean 4 project: models (Ldlm/Model), proofs (Ldlm/Proofs), property theorems (Ldlm/Props), compiled line-protocol model driver"),
     dict(name="codec", path="/verif/harness/codec", serves_properties=["C17"], kind_free_text="byte-level differential of store.Write/Read against the Lean codec model"),
+    dict(name="stack", path="/verif/harness/stack", serves_properties=["C11", "C14", "C16", "C18"], kind_free_text="end-to-end: real cmd/server + cmd/lock binaries over loopback with gRPC, REST and Go clients, signals, TLS/password matrix"),
+    dict(name="conc", path="/verif/harness/concsrv", serves_properties=["C01", "C02", "C03", "C05", "C06", "C09", "C13"], kind_free_text="controlled interleavings of small concurrent programs on the instrumented real LockServer (tools/instr overlay + verifrt scheduler + DFS/PCT explorer), with model-independent monitors and crash-image snapshots"),
     dict(name="seq", path="/verif/harness/seq", serves_properties=["C01", "C03", "C04", "C07", "C08", "C10", "C12", "C13", "C18"], kind_free_text="sequential histories in virtual time: real LockServer (testing/synctest) vs Lean model M2 through the line protocol, plus model-independent monitors"),
 ]
 NOTES = "Every check = Lean proof obligations about a model + a correspondence run that ties the model to /repo's working tree. See DESIGN.md."
